@@ -33,7 +33,7 @@ def sameCall (f g : String) : Bool :=
 theorem dump_matches_dumps : sameCall "dump_function" "dumps_function" = true := by decide
 theorem dump_json_matches_dumps_json : sameCall "dump_json_function" "dumps_json_function" = true := by decide
 theorem load_sites_agree :
-    (sitesOf "load_function").all (fun s => s.callee == "yaml.load" && s.kwargs == [("Loader", "UserLoader")]) = true := by
+    (sitesOf "load_function").all (fun s => s.callee == "yaml.load" && s.kwargs == [("Loader", "CLS")]) = true := by
   decide
 theorem setups_agree :
     setupOf "dump_function" = setupOf "dumps_function" ∧
@@ -47,7 +47,7 @@ theorem sites_exist :
 /-- the only tests and context managers a `__call__` may contain -/
 def allowedBranch : List String :=
   ["isinstance(source, Path)", "not (isinstance(source, Path))", "isinstance(sink, Path)",
-   "not (isinstance(sink, Path))", "with sink.open('w') as f", "with source.open('r') as f"]
+   "not (isinstance(sink, Path))", "with sink.open('w') as fh", "with source.open('r') as fh"]
 
 /-- **The whole body.**  Apart from the yaml calls, a `__call__` contains nothing but the conversion of
 a file name into a `Path`; no early return, no other statement.  A Path sink is opened with `'w'`
